@@ -11,6 +11,10 @@ pub mod c06;
 pub mod c07;
 pub mod c08;
 pub mod c11;
+pub mod c12;
+pub mod c15;
+pub mod c16;
+pub mod c18;
 
 pub fn threads() -> usize {
     std::env::var("CV_THREADS")
@@ -30,6 +34,10 @@ pub fn dispatch(id: &str, tier: Tier, replay: Option<Value>, _rest: &[String]) -
         "C07" => c07::run(tier, replay),
         "C08" => c08::run(tier, replay),
         "C11" => c11::run(tier, replay),
+        "C12" => c12::run(tier, replay),
+        "C15" => c15::run(tier, replay),
+        "C16" => c16::run(tier, replay),
+        "C18" => c18::run(tier, replay),
         _ => {
             eprintln!("unknown property {id}");
             64
